@@ -161,6 +161,16 @@ def analyse_accessor(rep, d, fn, symmap):
     nonneg = set(UNSIGNED_SYMS) | {p.get("name") for p in ir.params(fn) if "index_type" in ir.wtype(p) or "size_t" in ir.wtype(p) or "unsigned" in ir.qtype(p)}
     exp_node, cond = find_expect(stmts)
     if cond is None:
+        # the whole body hands its own parameters, unchanged and in order, to another accessor that carries the contract (`return this->operator[](idx);`)
+        rt0 = ir.sx(ir.ekids(ret[0])[0])
+        while rt0[0] == "cast":
+            rt0 = rt0[3]
+        CHECKED = ("operator[]", "first", "last", "subspan", "front", "back", "at")
+        if len(stmts) == 1 and ((rt0[0] == "call" and rt0[1][0] == "mem" and rt0[1][1] in (("this",), ("un", "*", ("this",))) and rt0[1][2] in CHECKED and
+                                 list(rt0[2:]) == [("ref", p.get("name")) for p in ir.params(fn)]) or
+                                (rt0[0] == "index" and rt0[1] == ("un", "*", ("this",)) and [rt0[2]] == [("ref", p.get("name")) for p in ir.params(fn)])):
+            rep.holds("C16.range", label, "contract", where=where, detail="delegates to %s with its own arguments; the contract is checked there" % (rt0[1][2] if rt0[0] == "call" else "operator[]"))
+            return
         rep.violates("C16.range", label, "contract", where=where,
                      detail="no TCB_SPAN_EXPECT precondition although the accessor computes `%s`" % ir.show(rt)[:120])
         return
@@ -637,6 +647,9 @@ def run(tier):
     for name in ("first", "last", "subspan", "operator[]", "front", "back"):
         for fn in methods[name]:
             analyse_accessor(rep, d, fn, symmap)
+    # the deprecated call operator is one more element accessor: the same contract
+    for fn in methods.get("operator()", []):
+        analyse_accessor(rep, d, fn, symmap)
     for fn in methods["at"]:
         rule_at(rep, d, fn, symmap)
     # the same member without exceptions: the out-of-range branch must reach std::terminate under the same test
